@@ -20,3 +20,17 @@ func (a *AddrManager) VerifC18Counts() (nTried, nNew, inTried, inNew, index int,
 	}
 	return a.nTried, a.nNew, inTried, len(seen), len(a.addrIndex), true
 }
+
+// VerifC18Refs returns the number of new-bucket references of the address with the given key
+// (-1 unknown address, -2 mutex held).
+func (a *AddrManager) VerifC18Refs(key string) int {
+	if !a.mtx.TryLock() {
+		return -2
+	}
+	defer a.mtx.Unlock()
+	ka, ok := a.addrIndex[key]
+	if !ok {
+		return -1
+	}
+	return ka.refs
+}
